@@ -398,8 +398,18 @@ func c09r2(c *core.Ctx) {
 				continue
 			}
 			if reachesAfter(st, st) && !reachesAfter(al, al) {
-				fresh = false
-				why = "the status cell is allocated once outside the loop and shared by all entries: a later assignment changes the status of earlier entries"
+				// one cell shared by several entries: harmless as long as the cell is never written after it was handed out
+				// ( ok := 0 before the loop, entries point to it ), harmful when a later assignment changes earlier entries
+				rewritten := false
+				for _, r := range *al.Referrers() {
+					if w, isSt := r.(*ssa.Store); isSt && w.Addr == ssa.Value(al) && reachesAfter(st, w) {
+						rewritten = true
+					}
+				}
+				if rewritten {
+					fresh = false
+					why = "the status cell is allocated once outside the loop, shared by all entries and assigned again later: the assignment changes the status of earlier entries"
+				}
 			}
 		}
 		c.Check(fresh, "status-cell-fresh@"+fname(f)+"#"+fmt.Sprint(cells), st.Pos(), "the status of an entry points to a cell allocated for that entry", why)
